@@ -97,32 +97,23 @@ pub fn render(sc: &Value) -> Rendered {
         };
         fields.push((n, v));
     }
-    // framing header fields
+    // framing header fields: explicit lists when the scenario gives them, otherwise what the body kind needs
     let mut framing_fields: Vec<(String, Vec<u8>)> = Vec::new();
-    match kind {
-        "length" => {
-            if let Some(cls) = body.get("cl").and_then(|x| x.as_array()) {
-                for c in cls {
-                    framing_fields.push(("Content-Length".into(), c.as_str().unwrap().as_bytes().to_vec()));
-                }
-            } else {
-                framing_fields.push(("Content-Length".into(), raw.len().to_string().into_bytes()));
-            }
+    if let Some(tes) = body.get("te").and_then(|x| x.as_array()) {
+        for t in tes {
+            framing_fields.push(("Transfer-Encoding".into(), t.as_str().unwrap().as_bytes().to_vec()));
         }
-        "chunked" => {
-            let te = gso(&body, "te").unwrap_or("chunked");
-            framing_fields.push(("Transfer-Encoding".into(), te.as_bytes().to_vec()));
-            if let Some(cls) = body.get("cl").and_then(|x| x.as_array()) {
-                for c in cls {
-                    framing_fields.push(("Content-Length".into(), c.as_str().unwrap().as_bytes().to_vec()));
-                }
-            }
+    } else if let Some(te) = gso(&body, "te") {
+        framing_fields.push(("Transfer-Encoding".into(), te.as_bytes().to_vec()));
+    } else if kind == "chunked" {
+        framing_fields.push(("Transfer-Encoding".into(), b"chunked".to_vec()));
+    }
+    if let Some(cls) = body.get("cl").and_then(|x| x.as_array()) {
+        for c in cls {
+            framing_fields.push(("Content-Length".into(), c.as_str().unwrap().as_bytes().to_vec()));
         }
-        _ => {
-            if let Some(te) = gso(&body, "te") {
-                framing_fields.push(("Transfer-Encoding".into(), te.as_bytes().to_vec()));
-            }
-        }
+    } else if kind == "length" {
+        framing_fields.push(("Content-Length".into(), raw.len().to_string().into_bytes()));
     }
     if coding != "identity" {
         let tok = gso(sc, "coding_token").unwrap_or(coding);
@@ -389,11 +380,32 @@ pub fn render(sc: &Value) -> Rendered {
             payload_len = truth.len();
         }
     }
+    let mut truth = truth;
     if framing == "length" && coding == "identity" {
         if let Some(d) = guo(&body, "declared") {
-            // Content-Length says d; the peer sends raw.len() octets
+            // Content-Length says d; the peer sends raw.len() octets (fewer: the frame is cut; more: garbage follows)
             payload_len = d;
-            frame_end_spec = head_end + d;
+            frame_end_spec = head_end.saturating_add(d).min(2147483647);
+            if d < truth.len() {
+                truth.truncate(d);
+            } else if d > raw.len() && spec_fault == "none" {
+                spec_fault = "cut".into();
+                fault_at = wire.len();
+            }
+        }
+    }
+    // abstract tokens of the framing fields, for the specification's decision table
+    let mut clv: Vec<i64> = Vec::new();
+    let mut tet: Vec<String> = Vec::new();
+    for (n, v) in &fields {
+        if n.eq_ignore_ascii_case("content-length") {
+            let sv = String::from_utf8_lossy(v).to_string();
+            let ok = !sv.is_empty() && sv.bytes().all(|b| b.is_ascii_digit());
+            clv.push(if !ok { -1 } else { match sv.parse::<u64>() { Ok(x) => x.min(2147483647) as i64, Err(_) => -1 } });
+        } else if n.eq_ignore_ascii_case("transfer-encoding") {
+            for t in String::from_utf8_lossy(v).split(',') {
+                tet.push(t.trim().to_ascii_lowercase());
+            }
         }
     }
     let (cw, cd) = if coding == "identity" && framing == "chunked" { (cw, cd) } else { (vec![], vec![]) };
@@ -401,7 +413,7 @@ pub fn render(sc: &Value) -> Rendered {
     let script = json!({
         "framing": gso(&expect, "framing").unwrap_or(&framing),
         "headEnd": head_end,
-        "payloadLen": payload_len,
+        "payloadLen": payload_len.min(2147483647),
         "frameEnd": frame_end_spec,
         "wireLen": wire.len(),
         "cw": cw, "cd": cd,
@@ -413,6 +425,8 @@ pub fn render(sc: &Value) -> Rendered {
         "textLen": 0,
         "method": method,
         "coding": coding,
+        "clv": clv, "te": tet,
+        "nocheck": gb(sc, "nocheck") || sc.get("raw_head_hex").is_some(),
     });
     Rendered { wire, truth, script, fault, head_fields: fields }
 }
